@@ -28,6 +28,7 @@ type SimCfg struct {
 	Stack   string
 	Top     string
 	Resync  bool // handler machines: after a handler consumed a value the code re-reads its last byte
+	Fast    bool // non-validating skip machine: proved under the hypothesis that the spec accepts
 }
 
 type Sim struct {
@@ -67,6 +68,8 @@ func parseSimCfg(fc *FuncContract) (*SimCfg, error) {
 			c.Delta = n
 		case k == "resync":
 			c.Resync = v == "1"
+		case k == "fast":
+			c.Fast = v == "1"
 		case k == "stack":
 			c.Stack = v
 		case k == "top":
@@ -95,6 +98,17 @@ func (ex *Exec) Rdepth(arr, k *Term) *Term { return App(ex.rName("depth", arr), 
 func (ex *Exec) Rend(arr, k *Term) *Term   { return App(ex.rName("end", arr), BV(64), k) }
 func (ex *Exec) Rframe(arr, k *Term) *Term {
 	return App(ex.rName("frame", arr), ArraySort(BV(64), BV(8)), k)
+}
+
+
+// Rna / Rno: number of array / object frames open at position k (counters of the spec
+// transducer, used only by the bracket-kind-only "fast" machine).
+func (ex *Exec) Rna(arr, k *Term) *Term { return App(ex.rName("na", arr), BV(64), k) }
+func (ex *Exec) Rno(arr, k *Term) *Term { return App(ex.rName("no", arr), BV(64), k) }
+
+// bottomKind: kind of the outermost open container at position k (0 when none is open).
+func (ex *Exec) bottomKind(arr, k *Term) *Term {
+	return Ite(Sle(ex.Rdepth(arr, k), I64(0)), I64(0), ZeroExt(56, Select(ex.Rframe(arr, k), I64(0))))
 }
 
 func q8(v int) *Term { return BVI(8, int64(v)) }
@@ -140,6 +154,14 @@ func (ex *Exec) stepAxiom(arr, k *Term) *Term {
 	enters := And(Not(Eq(q, done)), Eq(ex.Rq(arr, k1), done))
 	e1 := Ite(enters, Ite(App("spec.endbefore", BoolSort, q, b), k, k1), ex.Rend(arr, k))
 	ax := And(Eq(ex.Rq(arr, k1), q1), Eq(ex.Rdepth(arr, k1), d1), Eq(ex.Rframe(arr, k1), f1), Eq(ex.Rend(arr, k1), e1))
+	if ex.simFast {
+		one := func(c *Term) *Term { return Ite(c, I64(1), I64(0)) }
+		topKind := Select(f, Sub(d, I64(1)))
+		popping := And(isPop, Not(limitHit), Sle(I64(1), d))
+		na1 := Sub(Add(ex.Rna(arr, k), one(And(isPushA, Not(limitHit)))), one(And(popping, Eq(topKind, q8(ctxKindArr)))))
+		no1 := Sub(Add(ex.Rno(arr, k), one(And(isPushO, Not(limitHit)))), one(And(popping, Eq(topKind, q8(ctxKindObj)))))
+		ax = And(ax, Eq(ex.Rna(arr, k1), na1), Eq(ex.Rno(arr, k1), no1))
+	}
 	if ex.simVariant == "travobj" {
 		quote := Eq(b, BVI(8, '"'))
 		keyOpen := And(qnamed(q, "ObjFirst", "ObjKey"), Eq(d, I64(1)), quote)
@@ -160,7 +182,26 @@ func (ex *Exec) initAxiom(arr *Term) *Term {
 	default:
 		q0 = rjvSpecLocal{Ctl: rjvSpecBefore, Ctx: rjvSpecCtxTop}
 	}
-	return And(Eq(ex.Rq(arr, I64(0)), q8(tab.ID(q0))), Eq(ex.Rdepth(arr, I64(0)), I64(0)))
+	ax := And(Eq(ex.Rq(arr, I64(0)), q8(tab.ID(q0))), Eq(ex.Rdepth(arr, I64(0)), I64(0)))
+	if ex.simFast {
+		ax = And(ax, Eq(ex.Rna(arr, I64(0)), I64(0)), Eq(ex.Rno(arr, I64(0)), I64(0)))
+	}
+	return ax
+}
+
+// countLemma: consequences of na(k) / no(k) being the number of array / object frames among
+// frame(k)[0..depth(k)) (lemma; discharged by induction as spec[value]/lemma/count-*).
+func (ex *Exec) countLemma(arr, k *Term) *Term {
+	tab := specTab()
+	d := ex.Rdepth(arr, k)
+	na, no := ex.Rna(arr, k), ex.Rno(arr, k)
+	f0 := Select(ex.Rframe(arr, k), I64(0))
+	ftop := Select(ex.Rframe(arr, k), Sub(d, I64(1)))
+	kind := func(x *Term) *Term { return Or(Eq(x, q8(ctxKindArr)), Eq(x, q8(ctxKindObj))) }
+	return And(Implies(Sle(I64(1), d), And(kind(f0), kind(ftop))), Implies(Not(Eq(ex.Rq(arr, k), q8(tab.Dead()))), And(
+		Sle(I64(0), d), Sle(d, I64(ex.simLimit)), Sle(I64(0), na), Sle(na, d), Sle(I64(0), no), Sle(no, d),
+		Implies(And(Sle(I64(1), d), Eq(f0, q8(ctxKindArr))), Sle(I64(1), na)),
+		Implies(And(Sle(I64(1), d), Eq(f0, q8(ctxKindObj))), Sle(I64(1), no)))))
 }
 
 // absorbInstance: once Dead or Done, the run stays there (lemma; base and step are checked as
@@ -353,6 +394,7 @@ func (eng *Engine) attachSim(fp *FuncProof) {
 	ex := fp.ex
 	ex.simVariant = cfg.Variant
 	ex.simLimit = cfg.Limit
+	ex.simFast = cfg.Fast
 	sv, ok := ex.params[cfg.Data].(*SliceV)
 	if !ok {
 		fp.problem("sim: no slice parameter %s", cfg.Data)
@@ -373,6 +415,13 @@ func (eng *Engine) attachSim(fp *FuncProof) {
 	fp.s0.qfacts = append(fp.s0.qfacts, &QFact{Guard: And(Sle(I64(0), av), Sle(av, n), Or(Eq(qa, q8(tab.Dead())), Eq(qa, q8(tab.Done())))), BV: av,
 		Body: And(Eq(ex.Rq(sim.arr, n), qa), Eq(ex.Rend(sim.arr, n), ex.Rend(sim.arr, av))), Name: "absorb"})
 	fp.sim = sim
+	if cfg.Fast {
+		// the machine is only claimed correct on inputs the specification accepts: every clause
+		// proved in this mode has the form accepts(data) ==> ..., and the hypothesis is assumed here
+		fp.s0.assume(ex.acceptsTerm(sim.arr, n))
+		cv := Fresh("q.cnt", BV(64))
+		fp.s0.qfacts = append(fp.s0.qfacts, &QFact{Guard: And(Sle(I64(0), cv), Sle(cv, n)), BV: cv, Body: ex.countLemma(sim.arr, cv), Name: "count"})
+	}
 	// the fold starts at position 0 of the function's own data (top-level machines only)
 	if fp.fc.SimOpts["init"] != "none" {
 		fp.s0.assume(ex.initAxiom(sim.arr))
@@ -485,6 +534,9 @@ func (s *Sim) keyTerms(c *Cut, st *State) []*Term {
 		// which closing byte is being re-read (0 when not resyncing)
 		out = append(out, Ite(rs, ZeroExt(56, rsb), I64(0)))
 	}
+	if s.cfg.Fast {
+		out = append(out, s.fp.ex.bottomKind(s.arr, s.posTerm(c, st)))
+	}
 	out = append(out, s.fp.ex.Rq(s.arr, s.posTerm(c, st)))
 	return out
 }
@@ -569,6 +621,10 @@ func (s *Sim) stackRel(c *Cut, st *State, prove bool) (*Term, []*QFact, []*Term)
 	body := func(i *Term) (*Term, *Term, *Term) {
 		elem := Select(arr, Add(sl.Off, i))
 		ctx := ex.ctxAt(s.arr, pos, Add(i, I64(s.cfg.Delta)))
+		if s.cfg.Fast {
+			// slot 0 was pushed at top level, every other slot inside the outermost container
+			ctx = Ite(Eq(i, I64(0)), q8(ctxKindTop), Select(ex.Rframe(s.arr, pos), I64(0)))
+		}
 		var ds []*Term
 		for _, p := range pairs {
 			ds = append(ds, And(Eq(elem, I64(p[0])), Eq(ctx, q8(int(p[1])))))
@@ -594,9 +650,21 @@ func (s *Sim) fixedAtoms(c *Cut) []*Atom {
 		return &Atom{Name: name, Droppable: true, Fn: func(_ *Exec, st *State, prove bool) (*Term, error) { return f(st), nil }}
 	}
 	var out []*Atom
+	if s.cfg.Fast {
+		out = append(out, mk("sim:top==same-kind-depth", func(st *State) *Term {
+			_, top, ok := s.stackCells(st)
+			if !ok {
+				return True
+			}
+			pos := s.posTerm(c, st)
+			d := ex.Rdepth(s.arr, pos)
+			f0 := Select(ex.Rframe(s.arr, pos), I64(0))
+			return Eq(top, Ite(Sle(d, I64(0)), I64(0), Ite(Eq(f0, q8(ctxKindArr)), ex.Rna(s.arr, pos), ex.Rno(s.arr, pos))))
+		}))
+	}
 	out = append(out, mk("sim:top==depth-delta", func(st *State) *Term {
 		_, top, ok := s.stackCells(st)
-		if !ok {
+		if !ok || s.cfg.Fast {
 			return True
 		}
 		k := I64(0)
